@@ -53,7 +53,7 @@ pub fn seed_for(base: u64, property: &str, index: u64) -> u64 {
 }
 
 pub fn dn(s: &str) -> DomainName {
-    DomainName::from_dotted_string(s).unwrap_or_else(|| panic!("bad domain name in plan: {s:?}"))
+    DomainName::from_dotted_string(s).unwrap_or_else(|| panic!("HARNESS: bad domain name in plan: {s:?}"))
 }
 
 pub fn dn_str(d: &DomainName) -> String {
@@ -124,7 +124,7 @@ pub fn parse_data(s: &str) -> RecordTypeWithData {
                 minimum: p[6].parse().unwrap(),
             }
         }
-        _ => panic!("unsupported record data in plan: {s:?}"),
+        _ => panic!("HARNESS: unsupported record data in plan: {s:?}"),
     }
 }
 
@@ -187,7 +187,7 @@ pub fn parse_qtype(s: &str) -> QueryType {
         "MX" => QueryType::Record(RecordType::MX),
         "TXT" => QueryType::Record(RecordType::TXT),
         "PTR" => QueryType::Record(RecordType::PTR),
-        _ => panic!("unsupported qtype in plan: {s:?}"),
+        _ => panic!("HARNESS: unsupported qtype in plan: {s:?}"),
     }
 }
 
